@@ -15,11 +15,12 @@ func TestDumpRejected(t *testing.T) {
 		t.Skip()
 	}
 	o := FullOpts()
+	o.HDBias = true
 	n := 0
-	for seed := 0; seed < 30000 && n < 60; seed++ {
+	for seed := 0; seed < 60000 && n < 40; seed++ {
 		g := NewG(FromSeed(uint64(seed)), o)
 		it := g.CompleteCommand(false)
-		if len(it.Text) > 600 {
+		if len(it.Text) > 1500 {
 			continue
 		}
 		if _, _, err := parser.ParseCommands(nil, "g", it.Text); err != nil {
